@@ -64,10 +64,14 @@ func newV1Engine(c v1cfg) *v1engine {
 }
 
 // check runs one Check through commands.CheckQuery over this engine's resolver chain.
-func (e *v1engine) check(env *e2.Env, ts *typesystem.TypeSystem, o, r, sub string, rc *int) e2.Outcome {
+func (e *v1engine) check(env *e2.Env, ts *typesystem.TypeSystem, o, r, sub string, rc *int, ctxTuples ...ref.Tuple) e2.Outcome {
 	q := commands.NewCheckCommand(env.DS, e.resolver, ts, commands.WithCheckCommandMaxConcurrentReads(e.cfg.Reads))
-	res, err := q.Execute(context.Background(), &commands.CheckCommandParams{StoreID: env.StoreID,
-		TupleKey: &openfgav1.CheckRequestTupleKey{Object: o, Relation: r, User: sub}, Context: e2.ReqCtx(rc)})
+	params := &commands.CheckCommandParams{StoreID: env.StoreID,
+		TupleKey: &openfgav1.CheckRequestTupleKey{Object: o, Relation: r, User: sub}, Context: e2.ReqCtx(rc)}
+	if len(ctxTuples) > 0 {
+		params.ContextualTuples = &openfgav1.ContextualTupleKeys{TupleKeys: e2.ToTKs(ctxTuples)}
+	}
+	res, err := q.Execute(context.Background(), params)
 	if err != nil {
 		return e2.ErrOutcome(err)
 	}
@@ -118,6 +122,10 @@ func C02(o *core.Options) int {
 	}
 	if os.Getenv("VERIF_ONLY_FLAT") != "" { // development aid
 		models = nil
+	}
+	if os.Getenv("VERIF_ONLY_FASTPATH") != "" { // development aid
+		c02FastPaths(o, r)
+		return r.Finish()
 	}
 	r.Set("models_in_family", len(models))
 	nodes := e2.RequestNodes(ref.DefaultUniverse())
@@ -298,6 +306,7 @@ func C02(o *core.Options) int {
 	nodes = e2.RequestNodes(ref.DefaultUniverse())
 	c02ListObjects(o, r, models)
 	c02Reducers(o, r)
+	c02FastPaths(o, r)
 	return r.Finish()
 }
 
@@ -419,6 +428,21 @@ func c02ListObjects(o *core.Options, r *core.Report, models []*ref.Model) {
 }
 
 func replayC02(o *core.Options, r *core.Report) int {
+	var fp struct {
+		Case *fpCase `json:"fastpath_case"`
+	}
+	if err := core.LoadReplay(o.Replay, &fp); err == nil && fp.Case != nil {
+		for i := 0; i < 5; i++ {
+			res := fpRun(*fp.Case)
+			r.Eval(1)
+			sig, desc := fpJudge(*fp.Case, res)
+			fmt.Printf("replay %d: %s -> %d ids, errs=%v verdict=%q %s\n", i, fp.Case, len(res.Items), res.Errs, sig, desc)
+			if sig != "" {
+				r.Violate(sig, "replayed: "+desc, map[string]any{"fastpath_case": fp.Case})
+			}
+		}
+		return r.Finish()
+	}
 	var c stratCase
 	if err := core.LoadReplay(o.Replay, &c); err != nil || c.World == nil {
 		fmt.Println("replay: cannot load a Check case (ListObjects cases are replayed by re-running the check):", err)
